@@ -106,10 +106,15 @@ Inductive event :=
 | EFlush                           (* messageEvent -> SendAppMessages *)
 | EStop.
 
+(* what the application can see of the header of the message it is handed (used by the C06 gate statement) *)
+Record mfacts := { mf_begin : bytes; mf_sender : option bytes; mf_target : option bytes; mf_stime : fres Z; mf_valid : verdict }.
+Definition facts_of (m : minput) : mfacts :=
+  {| mf_begin := mi_begin m; mf_sender := mi_sender m; mf_target := mi_target m; mf_stime := mi_stime m; mf_valid := mi_valid m |}.
+
 (* callbacks and store events, in the order they happen *)
 Inductive cb :=
-| CbFromApp (seq : fres Z) (tgt_at_call : Z)
-| CbFromAdmin (t : bytes) (seq : fres Z)
+| CbFromApp (seq : fres Z) (tgt_at_call : Z) (answer : verdict) (f : mfacts)   (* answer: what the application returned *)
+| CbFromAdmin (t : bytes) (seq : fres Z) (f : mfacts)
 | CbToApp (seq : Z) (possdup : bool)
 | CbToAdmin (t : bytes)
 | CbOnLogon
